@@ -39,7 +39,9 @@ RULE = ('template trees over ConstantPT/TablePT/FunctionPT atoms and AtomicMulti
         'wait-pulse-wait), aliasing (`share`: equal sub-trees are one object) and stateful (`reuse`: same objects '
         'compiled plain / with options / plain again) variants.  Round 5: family `receiver` (every convenience helper '
         'applied ONCE to a receiver of every template class, asymmetric measurement windows), windows on collapsed composites '
-        'below a reversal.  Non-trivial = at least 2 nodes and (non-empty effective set or a '
+        'below a reversal.  Round 6: family `exprattr` (with_repetition / ** on repetition counts that are sums / differences '
+        'of top-level parameters with a number / ExpressionScalar / string as outer count, pad_to on durations that are sums '
+        'of parameter expressions to a number / expression / callable).  Non-trivial = at least 2 nodes and (non-empty effective set or a '
         'transformation or a constructor case); distinct = distinct canonical JSON.')
 TRUSTED = [
     'Coq 8.16.1 kernel + vm_compute (no native_compute)',
@@ -58,6 +60,8 @@ ASSUMPTIONS = [
     'cannot be observed on [0, duration)',
     'parameter expressions are affine in loop indices / top-level parameters; every referenced parameter is provided; '
     'parameter constraints and volatile parameters are not modelled',
+    'repetition counts are numbers in the model; an expression-valued count occurs only at the top of a constructor '
+    'operand (family exprattr) and is evaluated by the harness at the case\'s top-level parameters',
     'generated durations are positive whole numbers of ticks under every scope that reaches them (cases where a '
     'parameter mapping makes a duration fractional or negative are filtered out by the harness)',
     'a global LinearTransformation reads channels the template defines, or none of them (then it forwards everything, '
@@ -1916,8 +1920,8 @@ def gen_cases(rng, tier, ctx):
         cases += gen_shape_cases(rng, 100)
         cases += gen_ctor_cases(rng, 240)
         cases += gen_receiver_cases(rng)
-        cases += gen_exprattr_cases(rng)
         cases += gen_script_cases(rng, 130)
+        cases += gen_exprattr_cases(rng)       # (last: the families above see the same random stream as before round 6)
     else:
         cases += gen_opt_cases(rng, 900, 4, 4)
         cases += gen_opt_cases(rng, 150, 3, 0, exhaustive=True)
@@ -1928,9 +1932,9 @@ def gen_cases(rng, tier, ctx):
         cases += gen_receiver_cases(rng, exhaustive=True)
         cases += gen_receiver_cases(rng)
         cases += gen_receiver_cases(rng)
-        cases += gen_exprattr_cases(rng, exhaustive=True)
         cases += gen_script_cases(rng, 200, exhaustive=True)
         cases += gen_script_cases(rng, 500)
+        cases += gen_exprattr_cases(rng, exhaustive=True)
     return cases
 
 
@@ -2560,8 +2564,9 @@ MANIFEST = {
                   '(the guards are somewhat wider than the defects: syntactic channel test, every collapsed composite below '
                   'a reversal), which are refuted on witnesses (collapsing an atom is proved to be the identity). That a '
                   'global transformation changes neither the measurement windows nor the duration is proved without any '
-                  'guard. The combined statement (set S and transformation T against the plain run) is not one theorem: it '
-                  'follows by chaining the two under both guards. Parameters are inside the model: the code\'s scope threading '
+                  'guard. The combined statement the property makes (set S and transformation T together against the plain '
+                  'run: duration, window multiset, T pointwise) is one theorem under both guards (round 6, '
+                  'C05_options_vs_plain, also for parametrised templates). Parameters are inside the model: the code\'s scope threading '
                   '(MappedScope, RangeScope, the builder\'s frame stack) is proved equal to compiling the instantiated '
                   'template for every frame stack. The constant fold of a transformed waveform is proved pointwise '
                   'correct with the keys Transformation.__call__ returns (a LinearTransformation none of whose inputs '
@@ -2571,9 +2576,12 @@ MANIFEST = {
                   'with_parallel_atomic (distinct channels), chained with_parallel_channels (guarded + refuted); that '
                   'the REAL constructors return the shape Ctors.v predicts (and that pad_to holds the final values of '
                   'its operand, pt_final) is checked on every constructor case by an executable comparison, not proved. '
-                  'Freedom from KeyError is proved only for the leaf of an un-collapsed atom under a chain without '
-                  'LinearTransformation or under one LinearTransformation whose inputs are all present, not for whole '
-                  'compiled programs. The model is tied to /repo by an exact correspondence check.',
+                  'Freedom from KeyError is proved for every whole program compiled with NOTHING collapsed under a global '
+                  'transformation without LinearTransformation (round 6: every leaf is atom / T(atom) / reversed, chains '
+                  'Linear-free) and for the single leaf T(atom) with one LinearTransformation whose inputs are all present; '
+                  'not for programs with collapsed nodes or LinearTransformations in general. Repetition counts of the model '
+                  'are numbers: expression-valued counts (family exprattr) are evaluated by the harness at the top-level '
+                  'parameters before the term is printed. The model is tied to /repo by an exact correspondence check.',
     'level_note': 'see notes/C05.md for which statements are full / guarded / only tested',
     'technique': 'Coq proof by induction over template trees (frame lemma on builder states, scope-threading refinement) '
                  '+ correspondence check on generated parametrised trees x option subsets (incl. name-coincidence, '
